@@ -420,10 +420,11 @@ func c01ReadJournal(path string) int {
 }
 
 type c01Parent struct {
-	r        *Run
-	scratch  string
-	mu       sync.Mutex
-	outcomes map[string]int64
+	hangConfirmed int32
+	r             *Run
+	scratch       string
+	mu            sync.Mutex
+	outcomes      map[string]int64
 }
 
 // runTask runs one worker over [from,to); on a crash or hang it records the culprit and returns the
@@ -546,9 +547,15 @@ func (p *c01Parent) runTask(t c01Task, slot int) {
 		case dl != "":
 			r.Eval(1)
 			r.violationAt(t.fam.Name, culprit, "C01:hang-deadlock:"+c01BlockedSite(stderr.String()), "linting blocks forever (quiescent deadlock): "+cs.Desc+"; "+dl, detail)
+		case hangCPU >= 0 && atomic.LoadInt32(&p.hangConfirmed) == 1:
+			// a busy hang has already been confirmed (and reported) in this run: do not spend
+			// another solo CPU budget on every further suspect
+			r.Eval(1)
+			r.Count("hang_suspects_not_reconfirmed", 1)
 		case hangCPU >= 0:
 			r.Eval(1)
 			if p.soloHang(t, culprit) {
+				atomic.StoreInt32(&p.hangConfirmed, 1)
 				r.violationAt(t.fam.Name, culprit, "C01:hang-cpu", fmt.Sprintf("linting did not finish within %d s of CPU time when run alone: %s", c01SoloCPUBudget, cs.Desc), detail)
 			} else {
 				r.Count("slow_cases", 1)
